@@ -3,7 +3,7 @@ import QV.Shared.CFloat
 import QV.Shared.ExprWire
 import QV.C14.Model
 /-
-QV.Shared.GateWire — what the C14 and C15 drivers share: the `CFloat` instance of the scalar interface
+QV.Shared.GateWire — what the C14 and C15 drivers share: the `C64` instance of the scalar interface
 of the gate model (`QV.C14.GateFns` + the core notation classes), the wire format of matrices / gates,
 and the entry-wise comparison with an absolute tolerance.  The Rust side is `harness/src/gatewire.rs`.
 
@@ -15,36 +15,49 @@ and the entry-wise comparison with an absolute tolerance.  The Rust side is `har
   gate                 (gate "NAME" (mods M*) (params P*) (qubits Q*))
   result of to_unitary (ok (mat DIM entry*)) | (err KIND) | (crash "msg")
 
-No Mathlib; `CFloat` satisfies no laws and no theorem mentions these instances.
+No Mathlib; `C64` satisfies no laws and no theorem mentions these instances.
 -/
 namespace QV
 namespace GateWire
 open QV.C14
 
-instance : Zero CFloat := ⟨(0.0, 0.0)⟩
-instance : One CFloat := ⟨(1.0, 0.0)⟩
-instance : Add CFloat := ⟨CFloat.add⟩
-instance : Sub CFloat := ⟨CFloat.sub⟩
-instance : Mul CFloat := ⟨CFloat.mul⟩
-instance : Neg CFloat := ⟨CFloat.neg⟩
+/-- `Complex64` with both components stored unboxed (one allocation per value; `C64 = Float × Float`
+costs three).  The formulas are num-complex 0.4.6's, the same ones `QV.Shared.C64` copies. -/
+structure C64 where
+  re : Float
+  im : Float
+
+instance : Inhabited C64 := ⟨⟨0.0, 0.0⟩⟩
+instance : Zero C64 := ⟨⟨0.0, 0.0⟩⟩
+instance : One C64 := ⟨⟨1.0, 0.0⟩⟩
+instance : Add C64 := ⟨fun a b => ⟨a.re + b.re, a.im + b.im⟩⟩
+instance : Sub C64 := ⟨fun a b => ⟨a.re - b.re, a.im - b.im⟩⟩
+/-- lib.rs:783 -/
+instance : Mul C64 := ⟨fun a b => ⟨a.re * b.re - a.im * b.im, a.re * b.im + a.im * b.re⟩⟩
+instance : Neg C64 := ⟨fun a => ⟨-a.re, -a.im⟩⟩
 
 /-- `std::f64::consts::FRAC_1_SQRT_2` -/
 def frac1Sqrt2 : Float := Float.ofBits 0x3FE6A09E667F3BCD
 /-- `std::f64::consts::FRAC_PI_4` -/
 def fracPi4 : Float := Float.ofBits 0x3FE921FB54442D18
 
-instance : GateFns CFloat where
-  conj z := (z.1, -z.2)                        -- num-complex lib.rs: `Complex::new(self.re, -self.im)`
-  cos := CFloat.cos
-  sin := CFloat.sin
-  half z := (z.1 / 2.0, z.2 / 2.0)             -- `Complex<f64> / f64` divides both components
-  i := (0.0, 1.0)
-  invSqrt2 := (frac1Sqrt2, 0.0)
-  cisPi4 := (fracPi4.cos, fracPi4.sin)         -- `Complex::cis(phase) = Complex::new(phase.cos(), phase.sin())`
-  cis := CFloat.cis
-  pi4 := (fracPi4, 0.0)
+/-- lib.rs:425 -/
+def C64.cos (z : C64) : C64 := ⟨z.re.cos * z.im.cosh, -z.re.sin * z.im.sinh⟩
+/-- lib.rs:415 -/
+def C64.sin (z : C64) : C64 := ⟨z.re.sin * z.im.cosh, z.re.cos * z.im.sinh⟩
 
-abbrev M := Mat CFloat
+instance : GateFns C64 where
+  conj z := ⟨z.re, -z.im⟩                      -- lib.rs: `Complex::new(self.re, -self.im)`
+  cos := C64.cos
+  sin := C64.sin
+  half z := ⟨z.re / 2.0, z.im / 2.0⟩           -- `Complex<f64> / f64` divides both components
+  i := ⟨0.0, 1.0⟩
+  invSqrt2 := ⟨frac1Sqrt2, 0.0⟩
+  cisPi4 := ⟨fracPi4.cos, fracPi4.sin⟩         -- `Complex::cis(phase) = Complex::new(phase.cos(), phase.sin())`
+  cis z := C64.cos z + (⟨0.0, 1.0⟩ : C64) * C64.sin z
+  pi4 := ⟨fracPi4, 0.0⟩
+
+abbrev M := Mat C64
 
 /-- all-zero `dim × dim` data, then the listed entries -/
 def decodeMat : Sexp → Option M
@@ -52,13 +65,13 @@ def decodeMat : Sexp → Option M
     match dim.toNat? with
     | none => none
     | some n =>
-      let zero : Array (Array CFloat) := Array.replicate n (Array.replicate n (0.0, 0.0))
-      let r := entries.foldl (fun (acc : Option (Array (Array CFloat))) e =>
+      let zero : Array (Array C64) := Array.replicate n (Array.replicate n ⟨0.0, 0.0⟩)
+      let r := entries.foldl (fun (acc : Option (Array (Array C64))) e =>
         match acc, e with
         | some d, .list [.atom "e", .atom i, .atom j, re, im] =>
           match i.toNat?, j.toNat?, ExprWire.decodeF64 re, ExprWire.decodeF64 im with
           | some i, some j, some re, some im =>
-            if i < n ∧ j < n then some (d.modify i fun row => row.set! j (re, im)) else none
+            if i < n ∧ j < n then some (d.modify i fun row => row.set! j ⟨re, im⟩) else none
           | _, _, _, _ => none
         | _, _ => none) (some zero)
       r.map fun d => ⟨n, n, d⟩
@@ -68,9 +81,9 @@ def encodeMat (A : M) : Sexp :=
   .list (.atom "mat" :: .atom (toString A.r) ::
     (List.range A.r).flatMap fun i => (List.range A.c).filterMap fun j =>
       let z := A.get i j
-      if z.1 == 0.0 && z.2 == 0.0 then none
+      if z.re == 0.0 && z.im == 0.0 then none
       else some (.list [.atom "e", .atom (toString i), .atom (toString j),
-                        ExprWire.encodeF64 z.1, ExprWire.encodeF64 z.2]))
+                        ExprWire.encodeF64 z.re, ExprWire.encodeF64 z.im]))
 
 /-- `max_{i,j} max(|Δre|, |Δim|)`; `none` when the shapes differ or a difference is NaN -/
 def maxDiff (A B : M) : Option Float :=
@@ -83,8 +96,8 @@ def maxDiff (A B : M) : Option Float :=
         | some m =>
           let a := A.get i j
           let b := B.get i j
-          let dr := (a.1 - b.1).abs
-          let di := (a.2 - b.2).abs
+          let dr := (a.re - b.re).abs
+          let di := (a.im - b.im).abs
           if dr.isNaN || di.isNaN then none
           else
             let m1 := if dr > m then dr else m
@@ -106,10 +119,10 @@ def showDiff (A B : M) : String :=
 def isUnitaryF (tol : Float) (A : M) : Bool :=
   A.r == A.c && closeMat tol (Mat.mul (Mat.adjoint A) A) (Mat.eye A.r)
 
-def decodeParam : Sexp → Option (Param CFloat)
+def decodeParam : Sexp → Option (Param C64)
   | .list [.atom "num", re, im] =>
     match ExprWire.decodeF64 re, ExprWire.decodeF64 im with
-    | some re, some im => some (.num (re, im))
+    | some re, some im => some (.num ⟨re, im⟩)
     | _, _ => none
   | .list [.atom "other"] => some .other
   | _ => none
